@@ -572,6 +572,33 @@ class Replayer:
         return {"params": r, "C": C, "P": P,
                 "unchanged": snap == (tuple(C.knotvector), [tuple(p) for p in C.ctrlpoints])}
 
+    def planar(self, c):
+        import numpy as np
+        U = [float(fr(x)) for x in c["U"]]
+        pts = [np.array([float(fr(x)), float(fr(y))]) for x, y in zip(c["X"], c["Y"])]
+        curve = self.Curve(U, pts)
+        if c["W"]:
+            curve.weights = [float(fr(w)) for w in c["W"]]
+        return curve
+
+    def do_GeoProjectOn(self, live, a):
+        from compmec.nurbs.advanced import Projection
+        C = self.planar(a["curve"])
+        u0 = float(fr(a["u0"]))
+        P = C(u0)
+        snap = (tuple(C.knotvector), [tuple(p) for p in C.ctrlpoints], C.weights)
+        r = with_timeout(lambda: Projection.point_on_curve(tuple(P), C), 30)
+        return {"params": r, "C": C, "P": P, "u0": u0,
+                "unchanged": snap == (tuple(C.knotvector), [tuple(p) for p in C.ctrlpoints], C.weights)}
+
+    def do_GeoIntersectCurved(self, live, a):
+        from compmec.nurbs.advanced import Intersection
+        A, B = self.planar(a["A"]), self.planar(a["B"])
+        snap = lambda c: (tuple(c.knotvector), [tuple(p) for p in c.ctrlpoints], c.weights)
+        sa, sb = snap(A), snap(B)
+        r = with_timeout(lambda: Intersection.curve_and_curve(A, B), 60)
+        return {"pairs": r, "A": A, "B": B, "unchanged": sa == snap(A) and sb == snap(B)}
+
     def do_GeoIntersect(self, live, a):
         from compmec.nurbs.advanced import Intersection
         A, B = self.polyline(a["A"], a.get("elev", 0)), self.polyline(a["B"])
@@ -905,6 +932,53 @@ class Replayer:
                 f.append(f"returned parameter {x} is not a nearest-point parameter {ws}")
         if not val["unchanged"]:
             f.append("curve modified")
+        return f
+
+    def cmp_GeoProjectOn(self, live, t, val):
+        import numpy as np
+        from compmec.nurbs.calculus import Derivate
+        f = []
+        r, C, P, u0 = val["params"], val["C"], np.array(val["P"]), val["u0"]
+        want = t["ret"]["val"]
+        if abs(float(P[0]) - float(fr(want["px"]))) > 1e-9 or abs(float(P[1]) - float(fr(want["py"]))) > 1e-9:
+            f.append(f"C({u0}) = {P}, spec ({float(fr(want['px']))}, {float(fr(want['py']))})")
+        lo, hi = (float(x) for x in C.knotvector.limits)
+        if not isinstance(r, tuple) or len(r) == 0:
+            return f + [f"result {r!r} is not a non-empty tuple"]
+        r = [float(x) for x in r]
+        if any(not (lo - 1e-12 <= x <= hi + 1e-12) for x in r):
+            f.append(f"parameter outside [{lo}, {hi}]: {r}")
+        if r != sorted(r):
+            f.append(f"parameters not sorted: {r}")
+        ds = [float(np.linalg.norm(C(x) - P)) for x in r]
+        if min(ds) > 1e-6:
+            f.append(f"a point on the curve (u0 = {u0}) is not projected onto itself: distances {ds}")
+        if max(ds) - min(ds) > 1e-6:
+            f.append(f"returned parameters are not equidistant: {ds}")
+        if not val["unchanged"]:
+            f.append("curve modified")
+        return f
+
+    def cmp_GeoIntersectCurved(self, live, t, val):
+        import numpy as np
+        f = []
+        pairs, A, B = val["pairs"], val["A"], val["B"]
+        if not val["unchanged"]:
+            f.append("operand modified")
+        pairs = [(float(a), float(b)) for a, b in pairs]
+        la, ha = (float(x) for x in A.knotvector.limits)
+        lb, hb = (float(x) for x in B.knotvector.limits)
+        for (a, b) in pairs:
+            if not (la <= a <= ha and lb <= b <= hb):
+                f.append(f"pair {(a, b)} outside the parameter intervals")
+            elif float(np.linalg.norm(A(a) - B(b))) > 1e-6:
+                f.append(f"pair {(a, b)}: curves do not meet there (distance {float(np.linalg.norm(A(a) - B(b)))!r})")
+        for i, p in enumerate(pairs):
+            for q in pairs[:i]:
+                if abs(p[0] - q[0]) < 1e-9 and abs(p[1] - q[1]) < 1e-9:
+                    f.append(f"duplicate pair {p}")
+        if t["ret"]["val"]["disjoint"] and pairs:
+            f.append(f"bounding boxes are disjoint but {pairs} returned")
         return f
 
     def cmp_GeoIntersect(self, live, t, val):
